@@ -48,6 +48,7 @@ type cnTxSpec struct {
 	Shape    string `json:"shape,omitempty"`    // regruntime: "g<workers>b<backups>m<max nodes per entity, 0 = unset>p<min pool: workers+this>v<validator-set constraint 0/1>s<allowed stragglers>"
 	Slash    string `json:"slash,omitempty"`    // regruntime: "<amount>:<runtime share % for equivocation>:<runtime share % for incorrect results>" (per-runtime slashing)
 	InMsgs   string `json:"inmsgs,omitempty"`   // regruntime: "<max incoming messages>:<minimum incoming message fee>"
+	Huge     bool   `json:"huge,omitempty"`     // rhcommit: the commitment declares 2^26 processed incoming messages
 	MsgFee   int64  `json:"msgfee,omitempty"`   // submitmsg: the fee sent into the runtime with the message (spec.Amount = tokens)
 	Nodes    string `json:"nodes,omitempty"`    // regentity: the node list of the descriptor, "N0,N2" (spec.Entity names the entity: E<i> or a user account)
 	VAct     string `json:"vact,omitempty"`     // vcreate: "<admins>/<threshold>;<suspenders>/<threshold>"; vauth: action descriptor (cons_vault.go parseAction)
@@ -356,6 +357,15 @@ func (n *cnNet) buildTx(spec *cnTxSpec, rng *rand.Rand) ([]byte, error) {
 		ec, err := n.rhCommitment(spec.To, spec.Amount, n.rhPrev[spec.To], spec.Node, spec.Sched, spec.Vote)
 		if err != nil {
 			return nil, err
+		}
+		if spec.Huge {
+			// a header that claims an absurd number of processed incoming messages (signed like any other commitment)
+			ec.Header.Header.InMessagesCount = 1 << 26
+			var nidx int
+			fmt.Sscanf(spec.Node, "N%d", &nidx)
+			if err = ec.Sign(n.vals[nidx].ident.NodeSigner, runtimeID(spec.To)); err != nil {
+				return nil, err
+			}
 		}
 		tx = roothash.NewExecutorCommitTx(spec.Nonce, fee, runtimeID(spec.To), []commitment.ExecutorCommitment{*ec})
 	case "propose":
